@@ -281,6 +281,9 @@ def update_identity(case, ctx):
       continue
     if hasattr(leaf, 'replace'):
       new_flat[p] = leaf.replace(leaf.value * 2 + (seed % 7))
+    elif isinstance(leaf, np.ndarray):
+      # (0-d NumPy arithmetic returns a NumPy scalar, not an array)
+      new_flat[p] = np.asarray(leaf * 2 + (seed % 7), leaf.dtype)
     else:
       new_flat[p] = leaf * 2 + (seed % 7)
   if not new_flat:
